@@ -8,19 +8,21 @@ from .. import flow
 PID = "C09"
 LEVEL = "other"
 EXPLANATION = (
-    "Static analysis over MIR of the async client. Decided: R1 (happens-before assembled from per-task dominance) in the "
-    "task that owns the FrontToBack receiver, closing or dropping that receiver - the only signal the front end has - is "
-    "dominated by the completion of close_tx.send(res).await and then close_tx.closed().await, and in wait_for_shutdown "
-    "the write of the shared disconnect reason happens on the Some(Err) arm before the close receiver can be dropped; "
-    "after the cause is recorded no further transport operation is awaited before the frontend channel is closed; "
-    "R2 no overflow-capable arithmetic (+,-,* and their overflow-checked forms) on numbers that originate from the "
-    "server's message in the receive path; R3 in send_task and read_task every path to the end passes through "
-    "close_tx.send(res), and every transport result awaited in the send path (handle_frontend_messages, "
-    "stop_subscription, send_ping) is propagated with `?` / matched into Error::Transport, never discarded; R4 the "
-    "front end maps a dead channel to ServiceDisconnect and then to on_disconnect(): every service future of the Client is "
-    "passed to run_future_until_timeout, subscribe_to_method waits through call_with_timeout; R5 read_error waits for the "
-    "channel to close and returns RestartNeeded(cause) when the slot is filled. NOT decided: the schedules themselves; "
-    "promptness in wall-clock terms; absence of every other panic for arbitrary bytes."
+    'Static analysis over MIR of the async client. Decided: R1 (happens-before assembled from per-task dominance) in '
+    'the task that owns the FrontToBack receiver, closing or dropping that receiver - the only signal the front end '
+    'has - is dominated by the completion of close_tx.send(res).await and then close_tx.closed().await, and in '
+    'wait_for_shutdown the write of the shared disconnect reason happens on the Some(Err) arm before the close '
+    'receiver can be dropped; after the cause is recorded no further transport operation is awaited before the '
+    'frontend channel is closed; R2 no overflow-capable arithmetic (+,-,* and their overflow-checked forms) on '
+    "numbers that originate from the server's message in the receive path; R3 in send_task and read_task every path "
+    'to the end passes through close_tx.send(res), and every transport result awaited in the send path '
+    '(handle_frontend_messages, stop_subscription, send_ping) is propagated with `?` / matched into Error::Transport, '
+    'never discarded; R4 the front end maps a dead channel to ServiceDisconnect and then to on_disconnect(): every '
+    'service future of the Client is passed to run_future_until_timeout, subscribe_to_method waits through '
+    'call_with_timeout; R5 read_error waits for the channel to close and returns RestartNeeded(cause) when the slot '
+    'is filled. R6 no second acquisition of the request-manager lock (or any std lock) while a guard of it is alive, '
+    'directly or one crate call deep (fixture control with a sequential twin). NOT decided: the schedules themselves; '
+    'promptness in wall-clock terms; absence of every other panic for arbitrary bytes.'
 )
 RULE_TEXT = "instances = receiver close/drop sites vs. awaited acknowledgements, arithmetic sites in the receive path with tainted operands, awaited transport results, service futures"
 TRUSTED = ["rustc MIR", "tokio mpsc: Sender::closed() resolves when the receiver is dropped/closed", "futures select"]
